@@ -17,6 +17,10 @@
 (*  {"ev":"Rep","id":n,"pos":i,"reported":b,"status":s,"nat":b}  AddPacketFromClient(s) was (not) called; a NAT   *)
 (*                                                          entry exists afterwards                                *)
 (*  {"ev":"Orphan","a":[..]}                               a sink saw traffic it could not attribute              *)
+(*  {"ev":"Conc","id":n,"log":..,"loops":2}                concurrent stage (AddrPolicyConc): ONE packet handler, *)
+(*                                                          one Handle goroutine per listener, one client each     *)
+(*  {"ev":"CSent","loop":i,"seq":k,"d":{..},"a":[..]}      the sink bound to a received datagram k of client i,   *)
+(*                                                          whose own destination was d                            *)
 (*                                                                         *)
 (* One deterministic pass.  The state variables of AddrPolicy are driven   *)
 (* by the OBSERVED events; at every event                                  *)
@@ -118,7 +122,18 @@ TrOrphan == /\ IsEvent("Orphan")
             /\ NoteViol(IF MustReject(Trace[l].a) THEN "private-contact" ELSE "")
             /\ UNCHANGED <<vars, drifts, nscn, ans>>
 
-TraceNext == TrDec \/ TrTcp \/ TrContact \/ TrClosed \/ TrUdp \/ TrPkt \/ TrSent \/ TrRep \/ TrOrphan
+(* ---- concurrent Handle loops on one handler (AddrPolicyConc: ConcNoPrivateContact / ConcOwnDestination) ---- *)
+TrConc == /\ IsEvent("Conc")
+          /\ nscn' = nscn + 1
+          /\ UNCHANGED <<vars, viols, drifts, ans>>
+TrCSent == /\ IsEvent("CSent")
+           /\ LET a == Trace[l].a IN
+                /\ NoteViol(IF MustReject(a) THEN "private-contact" ELSE "")
+                \* delivered somewhere else than the datagram's own destination, or a destination the code refuses
+                /\ NoteDrift(a # Unmap(Trace[l].d.a) \/ CodeRejects(Trace[l].d.a))
+           /\ UNCHANGED <<vars, nscn, ans>>
+
+TraceNext == TrConc \/ TrCSent \/ TrDec \/ TrTcp \/ TrContact \/ TrClosed \/ TrUdp \/ TrPkt \/ TrSent \/ TrRep \/ TrOrphan
 TraceSpec == TraceInit /\ [][TraceNext]_<<vars, xvars>>
 
 Report == (l = Len(Trace) + 1) =>
